@@ -534,7 +534,18 @@ func zzC16eAbandonedCall() {
 	calls := zzCallsOf(tr)
 	vf.Assume(len(calls) == 1)
 	idA := calls[0].CallID
-	acancel()
+	// the caller goes away with an error: its context ends before the ack, or after the ack while it
+	// waits for the reply, or the broker acks negatively
+	switch how := vf.Choose("a.goes.away", 3); {
+	case how == 1 && waitReply:
+		tr.push(&message.UpstreamCallAck{CallID: idA, ResultCode: message.ResultCodeSucceeded})
+		vf.Settle()
+		acancel()
+	case how == 2:
+		tr.push(&message.UpstreamCallAck{CallID: idA, ResultCode: message.ResultCodeUnspecifiedError, ResultString: "no such node"})
+	default:
+		acancel()
+	}
 	vf.Settle()
 	vf.Assert("abandoned-caller-returns-an-error", doneA && errA != nil)
 	// late traffic for the abandoned id
@@ -546,12 +557,25 @@ func zzC16eAbandonedCall() {
 		tr.push(&message.DownstreamCall{CallID: "late-reply-2", RequestCallID: idA, SourceNodeID: "dst"})
 	}
 	vf.Settle()
-	// a later caller still gets the ack for its own id
+	// an incoming call still reaches ReceiveCall
+	tr.push(&message.DownstreamCall{CallID: "incoming", SourceNodeID: "peer", Name: "ni", Type: "ti"})
+	vf.Settle()
+	var in *DownstreamCall
+	var rerr error
+	stuck := vf.Blocked(func() { in, rerr = conn.ReceiveCall(context.Background()) })
+	vf.Assert("incoming-call-still-delivered", !stuck && rerr == nil && in != nil && in.CallID == "incoming")
+	// a later caller still gets the ack (and the reply) for its own id
 	var idB string
 	var errB error
+	var replyB *DownstreamReplyCall
 	doneB := false
+	bWaits := vf.Choose("b.waits.for.reply", 2) == 1
 	go func() {
-		idB, errB = conn.SendCall(context.Background(), &UpstreamCall{DestinationNodeID: "dst", Name: "nb", Type: "tb"})
+		if bWaits {
+			replyB, errB = conn.SendCallAndWaitReplayCall(context.Background(), &UpstreamCall{DestinationNodeID: "dst", Name: "nb", Type: "tb"})
+		} else {
+			idB, errB = conn.SendCall(context.Background(), &UpstreamCall{DestinationNodeID: "dst", Name: "nb", Type: "tb"})
+		}
 		doneB = true
 	}()
 	vf.Settle()
@@ -560,7 +584,13 @@ func zzC16eAbandonedCall() {
 	if len(calls) == 2 {
 		tr.push(&message.UpstreamCallAck{CallID: calls[1].CallID, ResultCode: message.ResultCodeSucceeded})
 		vf.Settle()
-		vf.Assert("later-caller-gets-its-own-ack", doneB && errB == nil && idB == calls[1].CallID && idB != idA)
+		if bWaits {
+			tr.push(&message.DownstreamCall{CallID: "reply-b", RequestCallID: calls[1].CallID, SourceNodeID: "dst"})
+			vf.Settle()
+			vf.Assert("later-caller-gets-its-own-reply", doneB && errB == nil && replyB != nil && replyB.CallID == "reply-b" && replyB.RequestCallID == calls[1].CallID)
+		} else {
+			vf.Assert("later-caller-gets-its-own-ack", doneB && errB == nil && idB == calls[1].CallID && idB != idA)
+		}
 	}
 	conn.Close(context.Background())
 	vf.Reach("end")
@@ -3034,3 +3064,79 @@ func zzC10hCloseDuringResume() {
 	vf.Reach("end")
 }
 func zzC10hCloseDuringResumeDev1() { zzDeviations = 1; zzC10hCloseDuringResume() }
+
+// C20.k: writes whose context is already over mixed with ordinary writes (whichever select arm the
+// write takes): a write that reports an error has not been accepted, so at every moment the points
+// reported sent plus the points reported buffered never exceed the points of the writes that
+// returned nil, they equal them once Flush has returned nil, and exactly those points travel.
+func zzC20kRefusedWritesNotCounted() {
+	b := zzNewBroker()
+	zzServeStreams(b)
+	conn := zzConnect(b)
+	tr := b.last()
+	ctx := context.Background()
+	var opt UpstreamOption
+	switch vf.Choose("policy", 3) {
+	case 0:
+		opt = WithUpstreamFlushPolicyNone()
+	case 1:
+		opt = WithUpstreamFlushPolicyBufferSizeOnly(2)
+	case 2:
+		opt = WithUpstreamFlushPolicyImmediately()
+	}
+	up, err := conn.OpenUpstream(ctx, "session", opt, WithUpstreamQoS(message.QoSReliable))
+	vf.Assume(err == nil)
+	vf.Settle()
+	id := &message.DataID{Name: "n", Type: "t"}
+	over, cancel := context.WithCancel(ctx)
+	cancel()
+	accepted := uint64(0)
+	counted := func(when string) {
+		st := up.State()
+		buffered := uint64(0)
+		for _, g := range st.DataPointsBuffer {
+			buffered += uint64(len(g.DataPoints))
+		}
+		vf.Assert("sent-plus-buffered-never-exceed-accepted", st.TotalDataPoints+buffered <= accepted)
+	}
+	writes := 2 + vf.Choose("writes", 2)
+	for i := 0; i < writes; i++ {
+		wctx := ctx
+		if vf.Choose("context.over."+string(rune('0'+i)), 2) == 1 {
+			wctx = over
+		}
+		npts := 1 + i%2
+		pts := make([]*message.DataPoint, npts)
+		for k := range pts {
+			pts[k] = &message.DataPoint{ElapsedTime: time.Duration(10*i + k), Payload: []byte{byte(i)}}
+		}
+		werr := up.WriteDataPoints(wctx, id, pts...)
+		if werr == nil {
+			accepted += uint64(npts)
+		}
+		if wctx == ctx {
+			vf.Assert("ordinary-write-accepted", werr == nil)
+		}
+		vf.Settle()
+		counted("after write")
+	}
+	ferr := up.Flush(ctx)
+	vf.Settle()
+	if ferr == nil {
+		st := up.State()
+		vf.Assert("after-flush-buffer-empty", len(st.DataPointsBuffer) == 0)
+		vf.Assert("after-flush-sent-equals-accepted", st.TotalDataPoints == accepted)
+		n := uint64(0)
+		for _, c := range zzUpstreamChunksOf(tr) {
+			vf.Assert("no-empty-chunk", len(c.StreamChunk.DataPointGroups) > 0)
+			for _, g := range c.StreamChunk.DataPointGroups {
+				n += uint64(len(g.DataPoints))
+			}
+		}
+		vf.Assert("exactly-the-accepted-points-travel", n == accepted)
+		vf.Reach("flushed")
+	}
+	conn.Close(ctx)
+	vf.Reach("end")
+}
+func zzC20kRefusedWritesNotCountedDev1() { zzDeviations = 1; zzC20kRefusedWritesNotCounted() }
